@@ -14,10 +14,11 @@
    every mode (C08_unfiltered_writer_refuted): that was `rewrite_authorship_after_commit_amend` before its
    repair (former class C08-K1); the inventory contains no such writer any more, and a new one makes
    C08_inventory_ok fail to check.
-   (b) holds for the text of User/Assistant/Thinking/Plan messages and tokens of 15..90 secret characters
-   (C08_redact_complete, C08_mask_hides, C08_prompts_redacted, C08_notes_mode_masks); it is FALSE for
-   ToolUse.input (C08_tooluse_refuted, class C08-K2) and a run longer than MAX is never examined whatever the
-   classifier would say (C08_long_token_refuted, class C08-K3).
+   (b) holds for every message variant - the text of User/Assistant/Thinking/Plan messages and every string
+   inside ToolUse.input (C08_all_variants_scanned, C08_tooluse_redacted; former class C08-K2) - and for every
+   run of at least MIN secret characters, however long: a run longer than MAX is examined in consecutive
+   pieces of admissible length that cover it completely (C08_long_runs_examined; former class C08-K3)
+   (C08_redact_complete, C08_mask_hides, C08_prompts_redacted, C08_notes_mode_masks).
 
    The classifier `isr` is universally quantified: the floating-point `is_random` is the definition of
    high-entropy for this property.  `cont_ok s` (no UTF-8 continuation byte directly after a secret, hence
@@ -37,14 +38,33 @@ Theorem C08_decomposition :
 Proof. exact decomposition_char. Qed.
 Print Assumptions C08_decomposition.
 
-(* the output is the input with every maximal run of admissible length that the classifier flags replaced
-   by its mask, every other byte copied in order; the count is the number of such runs *)
+(* the output is the input with every piece of every maximal run that has an admissible length and that the
+   classifier flags replaced by its mask, every other byte copied in order; the count is the number of such
+   pieces.  `refine` cuts the runs longer than MAX into the pieces the scanner examines (see
+   C08_long_runs_examined); a run of at most MAX bytes is its own single piece. *)
 Theorem C08_redact_complete :
   forall (isr : list N -> bool) s, cont_ok s = true ->
   exists segs, decomposition s segs /\
-    redact_text isr s = Ok (flat_map (redact_seg isr) segs, count_flagged isr segs).
+    redact_text isr s = Ok (flat_map (redact_seg isr) (refine segs), count_flagged isr (refine segs)).
 Proof. exact redact_complete. Qed.
 Print Assumptions C08_redact_complete.
+
+(* the pieces of a run are the run; and every piece of a run of at least MIN bytes has an admissible length:
+   no part of such a run escapes the classifier, however long the run is *)
+Theorem C08_long_runs_examined :
+  forall r, concat (pieces r) = r /\
+    (min_secret_length <= len r -> Forall (fun pc => admissible (len pc) = true) (pieces r)).
+Proof. exact (fun r => conj (concat_pieces r) (pieces_admissible r)). Qed.
+Print Assumptions C08_long_runs_examined.
+
+(* regression witness of the former class C08-K3: a run of MAX+1 bytes is examined as two pieces, both masked *)
+Theorem C08_long_run_masked :
+  len wit_long = max_secret_length + 1 /\
+  map (@length N) (pieces wit_long)
+    = [N.to_nat (max_secret_length + 1 - min_secret_length); N.to_nat min_secret_length] /\
+  redact_text all_random wit_long = Ok (wit_long_masked, 2).
+Proof. exact long_run_masked. Qed.
+Print Assumptions C08_long_run_masked.
 
 Theorem C08_redact_never_panics :
   forall (isr : list N -> bool) s, cont_ok s = true -> redact_text isr s <> Panic.
@@ -62,8 +82,10 @@ Theorem C08_mask_hides :
 Proof. exact mask_hides_all. Qed.
 Print Assumptions C08_mask_hides.
 
+(* on texts without a run longer than MAX (the masked pieces of a longer run join their unmasked neighbours
+   into new runs, which the classifier may judge differently) *)
 Theorem C08_redact_idempotent :
-  forall (isr : list N -> bool) s out n, cont_ok s = true ->
+  forall (isr : list N -> bool) s out n, cont_ok s = true -> short_runs (segments s) ->
     redact_text isr s = Ok (out, n) -> redact_text isr out = Ok (out, 0).
 Proof. exact redact_idempotent. Qed.
 Print Assumptions C08_redact_idempotent.
@@ -75,17 +97,10 @@ Theorem C08_length :
 Proof. exact redact_length. Qed.
 Print Assumptions C08_length.
 
-(* a run of MAX+1 secret characters is never examined: unchanged for every classifier *)
-Theorem C08_long_token_refuted :
-  forallb is_secret_char wit_long = true /\ len wit_long = max_secret_length + 1 /\
-  forall isr, redact_text isr wit_long = Ok (wit_long, 0).
-Proof. exact long_token_refuted. Qed.
-Print Assumptions C08_long_token_refuted.
-
-(* more generally: a text none of whose runs has an admissible length is never touched *)
+(* a text none of whose pieces has an admissible length (all runs shorter than MIN) is never touched *)
 Theorem C08_inadmissible_unchanged :
   forall (isr : list N -> bool) s, cont_ok s = true ->
-    (forall r, In (Run r) (segments s) -> admissible (len r) = false) -> redact_text isr s = Ok (s, 0).
+    (forall r, In (Run r) (refine (segments s)) -> admissible (len r) = false) -> redact_text isr s = Ok (s, 0).
 Proof. exact inadmissible_unchanged. Qed.
 Print Assumptions C08_inadmissible_unchanged.
 
@@ -96,13 +111,17 @@ Theorem C08_prompts_redacted :
 Proof. exact redact_prompts_ok. Qed.
 Print Assumptions C08_prompts_redacted.
 
-(* ... and a ToolUse message is copied with its input untouched, flagged token included *)
-Theorem C08_tooluse_refuted :
-  admissible (len wit_key) = true /\ forallb is_secret_char wit_key = true /\
-  infix wit_key (payload wit_tool_msg) /\
-  forall isr, isr wit_key = true -> redact_msgs isr [wit_tool_msg] = Ok ([wit_tool_msg], 0).
-Proof. exact tooluse_refuted. Qed.
-Print Assumptions C08_tooluse_refuted.
+(* every variant of the enum is scanned: no message is copied unexamined *)
+Theorem C08_all_variants_scanned : forall m, touched m = true.
+Proof. exact all_variants_touched. Qed.
+Print Assumptions C08_all_variants_scanned.
+
+(* regression witness of the former class C08-K2: the strings inside ToolUse.input are redacted *)
+Theorem C08_tooluse_redacted :
+  (forall n sh ls, touched (MToolUse n sh ls) = true) /\
+  redact_msgs all_random [wit_tool_msg] = Ok ([wit_tool_msg_masked], 1).
+Proof. exact tooluse_redacted. Qed.
+Print Assumptions C08_tooluse_redacted.
 
 (* the model knows every variant of `enum Message` the source has, and no other *)
 Theorem C08_variants_known :
@@ -144,6 +163,22 @@ Print Assumptions C08_inventory_safe.
 Theorem C08_inventory_notes_ok : inventory_notes_ok note_writers = true.
 Proof. exact inventory_notes_ok_now. Qed.
 Print Assumptions C08_inventory_notes_ok.
+
+(* the CAS route of the default mode: a successful enqueue clears EVERY record that has messages - a fact read
+   from the per-prompt condition of enqueue_prompt_messages_to_cas (Gen: cas_clear_when); C08_inventory_ok
+   rests on it through `w_filtered post_commit` *)
+Theorem C08_cas_clears_all : cas_clears_all = true.
+Proof. exact cas_clears_all_now. Qed.
+Print Assumptions C08_cas_clears_all.
+
+(* ... and an enqueue that takes only records with accepted lines would leave the transcript of a session
+   with accepted_lines = 0 in the note (the counterexample record the system-level search replays) *)
+Theorem C08_partial_cas_refuted :
+  atoms_clear_all [CHasMessages; CAcceptedPositive] = false /\
+  cas_clear_with [CHasMessages; CAcceptedPositive] [wit_zero] = [wit_zero] /\
+  ~ Forall clean_prompt (cas_clear_with [CHasMessages; CAcceptedPositive] [wit_zero]).
+Proof. exact partial_cas_refuted. Qed.
+Print Assumptions C08_partial_cas_refuted.
 
 (* a writer WITHOUT a storage-mode match that is fed from the working log (what the amend writer was before
    its repair) breaks the invariant from the empty notes ref, in every mode *)
